@@ -1,5 +1,6 @@
 // govc:pkg rsql
 // govc:bound ON operands of 1..3 dot-separated segments over {s, m, meta, id, x} (155 paths) x stream alias in {"", s, meta} x table alias in {m, meta, s}
+// govc:also C11
 // Bounded stand-in (NOT a proof) for stripAliasPrefix (strings.SplitN, outside the modelled library): an ON operand loses
 // its first segment exactly when that segment is the stream alias or this JOIN's alias; everything after it is kept
 // verbatim, and an operand without such a qualifier is untouched.
